@@ -83,6 +83,37 @@ func run(c *mc.Ctx) {
 		if val(x).Cmp(ref.SAdd(a, a)) != 0 {
 			w.Fail("Scalar.Add/alias", fmt.Sprintf("x.Add(x,x) a=%x", a), cas())
 		}
+		// every aliasing pattern of receiver and operands
+		for _, al := range []struct {
+			name string
+			f    func() *big.Int
+			want *big.Int
+		}{
+			{"x.Add(a,x)", func() *big.Int { x := sc(b); return val(x.Add(sa, x)) }, ref.SAdd(a, b)},
+			{"x.Sub(x,b)", func() *big.Int { x := sc(a); return val(x.Sub(x, sb)) }, ref.SSub(a, b)},
+			{"x.Sub(a,x)", func() *big.Int { x := sc(b); return val(x.Sub(sa, x)) }, ref.SSub(a, b)},
+			{"x.Mul(a,x)", func() *big.Int { x := sc(b); return val(x.Mul(sa, x)) }, ref.SMul(a, b)},
+			{"x.Mul(x,x)", func() *big.Int { x := sc(a); return val(x.Mul(x, x)) }, ref.SMul(a, a)},
+			{"x.Sub(x,x)", func() *big.Int { x := sc(a); return val(x.Sub(x, x)) }, big.NewInt(0)},
+			{"x.Neg(x)", func() *big.Int { x := sc(a); return val(x.Neg(x)) }, ref.SNeg(a)},
+			{"x.Reduce(x)", func() *big.Int { x := sc(a); return val(x.Reduce(x)) }, ref.SMod(a)},
+			{"x.Sum({x,b})", func() *big.Int { x := sc(a); return val(x.Sum([]*scalar.Scalar{x, sb})) }, ref.SAdd(a, b)},
+			{"x.Product({x,b,x})", func() *big.Int { x := sc(a); return val(x.Product([]*scalar.Scalar{x, sb, x})) }, ref.SMul(ref.SMul(a, b), a)},
+		} {
+			if got := al.f(); got.Cmp(al.want) != 0 {
+				w.Fail("Scalar/alias/"+al.name, fmt.Sprintf("%s with a=%x b=%x gives %x want %x", al.name, a, b, got, al.want), cas())
+			}
+		}
+		if ref.SMod(a).Sign() != 0 {
+			x := sc(a)
+			if got := val(x.Invert(x)); got.Cmp(ref.SInv(a)) != 0 {
+				w.Fail("Scalar/alias/x.Invert(x)", fmt.Sprintf("x.Invert(x) a=%x", a), cas())
+			}
+		}
+		// operands must not be modified
+		if val(sa).Cmp(a) != 0 || val(sb).Cmp(b) != 0 {
+			w.Fail("Scalar/operand-modified", fmt.Sprintf("an operand was modified by Add/Sub/Mul: a=%x b=%x", a, b), cas())
+		}
 		eq := sa.Equal(sb)
 		if (eq == 1) != (a.Cmp(b) == 0) {
 			w.Fail("Scalar.Equal", fmt.Sprintf("Equal(%x,%x)=%d", a, b, eq), cas())
@@ -205,6 +236,27 @@ func run(c *mc.Ctx) {
 	// Decoders on the 256-bit alphabet + the decision tree of the comparison.
 	w256 := alph.Wide(c.Seed, 256, false)
 	w256 = append(w256, decisionTree()...)
+	// a dense neighbourhood of the order (and of 2^252): every L + e, |e| <= 600, and L +- 2^(8k) for every byte k
+	{
+		seenW := map[string]bool{}
+		for _, v := range w256 {
+			seenW[v.Text(16)] = true
+		}
+		addW := func(v *big.Int) {
+			if v.Sign() >= 0 && v.BitLen() <= 256 && !seenW[v.Text(16)] {
+				seenW[v.Text(16)] = true
+				w256 = append(w256, v)
+			}
+		}
+		for e := int64(-600); e <= 600; e++ {
+			addW(new(big.Int).Add(ref.L, big.NewInt(e)))
+			addW(new(big.Int).Add(new(big.Int).Lsh(big.NewInt(1), 252), big.NewInt(e)))
+		}
+		for k := uint(0); k < 32; k++ {
+			addW(new(big.Int).Add(ref.L, new(big.Int).Lsh(big.NewInt(1), 8*k)))
+			addW(new(big.Int).Sub(ref.L, new(big.Int).Lsh(big.NewInt(1), 8*k)))
+		}
+	}
 	c.Rep.Extra["alphabet_256"] = len(w256)
 	c.Par("decode256", len(w256), func(w *mc.W, i int) {
 		v := w256[i]
